@@ -92,7 +92,7 @@ fn get_players<Client: QuakeClient>(bufferer: &mut Buffer<LittleEndian>) -> GDRe
     // this needs to be looked at again as theres no way to check if the buffer has
     // a remaining null byte the original code was:
     // while !bufferer.is_remaining_empty() && bufferer.remaining_data() != [0x00]
-    while !bufferer.remaining_length() == 0 {
+    while bufferer.remaining_length() != 0 {
         let data = bufferer.read_string::<Utf8Decoder>(Some([0x0A]))?;
         let data_split = data.split(' ').collect::<Vec<&str>>();
         let data_iter = data_split.iter();
